@@ -1,6 +1,7 @@
 import Proofs.C13Exec
 import Proofs.C13Conc
 import Proofs.C13Cancel
+import Proofs.C13Metrics
 /-!
 # C13 — retries, idempotence and speculative execution (property theorems)
 
@@ -385,6 +386,29 @@ theorem C13_downgrading_stops (req : Req) (ls : List Nat) (outcome : Nat → Res
 example : downgradingGetRetryType (.writeTimeout .cas 2 3) = .rethrow ∧ downgradingGetRetryType (.writeTimeout .batch 1 2) = .ignore ∧
     downgradingGetRetryType (.unavailable 2 1) = .retry ∧ downgradingAttempt [4, 1] 2 = (true, some 1) ∧
     downgradingAttempt [4, 1] 3 = (false, none) := by decide
+
+/-! ### the statement's metrics (`queryMetrics`: Attempts(), Latency(), the observers' per-host Metrics) -/
+
+/-- **metrics are exact**: for EVERY history of attempts (host and latency of each, any number of hosts, also a
+    statement object executed again: `pre` = the attempts of its earlier executions) the code's bookkeeping (a map
+    of per-host counters updated under one lock) hands the observer of the j-th new attempt the number
+    `|pre| + j`, the number of attempts made on that attempt's host so far and the sum of their latencies, and
+    afterwards `Attempts()` is the number of all attempts and `Latency()` the integer average of all latencies -/
+theorem C13_metrics_exact (pre rest : List (Nat × Nat)) :
+    let q0 := (QM.run {} pre).1
+    let r := QM.run q0 rest
+    r.2 = (List.range rest.length).map (fun j => Spec.obsAt (pre ++ rest) (pre.length + j)) ∧
+    r.1.totalAttempts = (pre ++ rest).length ∧ r.1.latency = Spec.avgLatency (pre ++ rest) := by
+  intro q0 r
+  have h0 : MInv [] ({} : QM) := ⟨rfl, by intro h; rfl, by intro h; rfl, rfl, rfl⟩
+  have h1 := (run_spec pre [] {} h0).1
+  simp only [List.nil_append] at h1
+  have h2 := run_spec rest pre q0 h1
+  exact ⟨h2.2, h2.1.total, latency_spec _ _ h2.1⟩
+
+example : (QM.run {} [(1, 10), (2, 30), (1, 21)]) =
+    (⟨3, [⟨1, 2, 31⟩, ⟨2, 1, 30⟩]⟩, [⟨0, 1, 10⟩, ⟨1, 1, 30⟩, ⟨2, 2, 31⟩]) ∧
+    (QM.run {} [(1, 10), (2, 30), (1, 21)]).1.latency = 20 := by decide
 
 /-! ### cancellation at every point of concurrent executions (`ExecutorConc.MC`, `stepC`)
 
